@@ -28,7 +28,8 @@ reg('C19', 'exhaustive token-sequence/string enumeration + Hypothesis expression
     'alphabet, and random expression trees are compared with a reference parser that implements the stated precedence and evaluates exactly; '
     'extract(): every string ≤ 5/6 over 8 characters × every position × 3 option sets is checked against the range/charset/balance/end predicate.',
     'Cases where floor() lies within the float error bound of a discontinuity and unparenthesised chains mixing \\ with * or / are skipped (counted in evidence). '
-    'Which malformed texts must raise is only asserted for foreign characters, a trailing binary operator and an unclosed parenthesis.')
+    'Which malformed texts must raise is asserted for foreign characters, a trailing binary operator, parentheses unbalanced either way and a decimal point without digits; '
+    'parenthesis-heavy malformed texts are enumerated separately (every sequence of ≤ 5/7 pieces over (1) () ( ) 2 + - *).')
 
 reg('C20', 'exhaustive enumeration of the layer-presence lattice against a reference precedence order; snapshot comparison for immutability',
     'The complete 2^6 lattice of defining layers × 3 kinds × 23 (type, syntax) pairs (all known syntaxes, xhtml, unknown names) is enumerated in the quick '
@@ -37,7 +38,7 @@ reg('C20', 'exhaustive enumeration of the layer-presence lattice against a refer
     'Built-in layers are exercised by swapping deep copies of DEFAULT_CONFIG/SYNTAX_CONFIG into emmet.config for one case (restored in finally); `type` is always explicit.')
 
 reg('C16', 'exhaustive string × position enumeration + Hypothesis token strings + mutation/truncation fuzzing of valid documents; oracle = totality and range well-formedness invariants',
-    'Every string of length ≤ 4 (quick) / ≤ 5 (thorough) over a 17-symbol HTML and a 19-symbol CSS alphabet is fed to scan, attributes, split_value, match, '
+    'Every string of length ≤ 4 (quick) / ≤ 5 (thorough) over a 17-symbol HTML and a 19-symbol CSS alphabet (plus every attribute fragment ≤ 5/6 over 12 symbols incl. the Angular markers) is fed to scan, attributes, split_value, match, '
     'balanced_outward and balanced_inward at every position −1..len+1; random token strings, ≤3-edit mutants and all truncations of valid documents go beyond the bound. '
     'Checked: no exception, ranges inside the text, tag-shape/order of scanned tags, match == outward[0], strict nesting of outward entries, nesting of inward entries.',
     'Non-termination would show as a CPU-time watchdog expiry (20 s); absence of violations beyond the enumerated length is sampled, not shown.')
